@@ -33,6 +33,33 @@ CLAIMS = {
         "(corollary of execute_refines: the reference loop does not see the instance state); histories stay inside sameRules. Tie/oracle: "
         "generated call histories on one instance vs the model and vs from-scratch semantics.",
         note="Same side conditions as C01; FetchMatchingRules covered by correspondence and oracle (theorem pending).", tech="Lean 4 corollary of the refinement theorem + history correspondence", ref="5.C08"),
+ "C06": dict(text="Lean theorems C06_fires_le_max (at most MaxCycle firings; the cycle-limit error exactly after MaxCycle firings), "
+        "C06_trace_is_reference_trace, termination by structural recursion on the fuel MaxCycle+1; trace monitor on the real engine "
+        "(consecutive cycle numbers, every active rule evaluated once per cycle, execution only of a rule reported candidate in that cycle, "
+        "limit error iff one more firing needed, listeners agree) with MaxCycle in {0,1,2,3,5,8,12} and 0-3 listeners.",
+        note="Side conditions as C01. A user method that never returns is outside the model.", tech="Lean 4 invariant over the reference loop + refinement + trace monitor", ref="5.C06"),
+ "C10": dict(text="Lean theorems C10_retract_effect, C10_retract_only_named, C10_retract_unknown_noop, C10_retracted_never_candidate, "
+        "C10_complete_effect (remaining actions still run) over the reference semantics that the engine model refines; generated rule sets "
+        "retract self/other/unknown/case-variant names and call Complete at every action position; real engine vs model vs from-scratch semantics.",
+        note="Side conditions as C01.", tech="Lean 4 theorems on the reference semantics + refinement + differential correspondence", ref="5.C10"),
+ "C11": dict(text="Lean theorem C11_exact: FetchMatchingRules (model with working memory) returns exactly the non-removed entries whose condition holds "
+        "from scratch, sorted by non-increasing salience (sortStable_sorted), as a permutation of the matching entries (sortStable_perm), facts untouched; "
+        "no FrameHyp needed (no writes). C11_error_mode. Real engine vs model vs reference on generated rule sets incl. removed rules, equal saliences, failing conditions.",
+        note="MethodsPure, SnapInj, wfRule, unique keys.", tech="Lean 4 refinement proof for fetch + sort lemmas + correspondence", ref="5.C11"),
+ "C13": dict(text="Lean theorems C13_hit_skips_* (a remembered node is not evaluated again: no call, state untouched), C13_remembered, "
+        "C13_cleared_only_when_indexed, C13_index_only_infix (the index lists a node under a variable only if the variable's snapshot occurs in the node's). "
+        "Tie/oracle: the sequence of real user-method calls (name, arguments) of every run must equal the model's; an extra real call is reported as a C13 violation.",
+        note="Counted methods of the harness catalogue; at-most-once is relative to the model's invalidation events.", tech="Lean 4 theorems on memo hits and the invalidation index + call-sequence correspondence", ref="5.C13"),
+ "C14": dict(text="Lean theorems C14_cond_failure_contained / _default / _retErr, C14_action_failure (failing action k keeps the effects of actions 1..k-1), "
+        "C14_failure_not_memoised on the reference semantics refined by the engine model (errors and panics are distinct in the model; both end at the rule boundary). "
+        "Generated fault plans: panicking methods, k-th call failures, nil pointers, missing facts/keys/fields, index out of range, kind mismatch, modulo by zero; "
+        "the harness wraps Execute in recover and reports an escaping panic.",
+        note="Side conditions as C01 for the refinement.", tech="Lean 4 theorems on failure propagation + fault-plan correspondence", ref="5.C14"),
+ "C15": dict(text="Lean theorems C15_no_action_after_cancel (from any loop state where ctx.Err() would report cancellation nothing changes and the result is the "
+        "context's error; cancellation is monotone) and C15_precancelled. Check: every cancellation point of base runs is enumerated on the real engine "
+        "(poll index p in 0..P+1, listener-triggered cancellation at every event, Canceled and DeadlineExceeded, fact methods cancelling from inside a "
+        "condition/action); trace, facts and poll counts compared with the model; monitor: cancelled-but-not-reported, fired-after-cancel.",
+        note="Wall-clock deadlines are modelled as cancellation at an arbitrary poll. Fix 94e54e4 in /repo (context re-checked after the pass).", tech="Lean 4 theorems over poll points + exhaustive cancellation-point enumeration", ref="5.C15"),
 }
 
 def main():
